@@ -1,10 +1,12 @@
 /-
-C05 — machine-checked witness of finding F9.
+C05 — machine-checked witness of finding F9 (repaired in /repo by commit 0f15c6d).
 
-`iour::Driver::cancel` pushes the AsyncCancel SQE with a bare `squeue.push(..)` and only logs a warning when
-the submission queue is full, while `Proactor::cancel_token` still returns `true`. With capacity 2 and two
-receives pushed (both SQ slots taken, nothing submitted yet) the cancel of the first one is lost: the kernel
-never hears about it, and on a never-ready descriptor the operation stays pending for ever.
+BEFORE the repair `iour::Driver::cancel` pushed the AsyncCancel SQE with a bare `squeue.push(..)` and only logged a
+warning when the submission queue was full, while `Proactor::cancel_token` still returned `true`
+(`iourCancelUnfixed`, selected by `cancelPushRaw := false`). With capacity 2 and two receives pushed (both SQ slots
+taken, nothing submitted yet) the cancel of the first one was lost: the kernel never heard about it, and on a
+never-ready descriptor the operation stayed pending for ever. `F9_repaired_ok` runs the same events on the code as it
+is now (`Cfg.gen`): the cancel submits the queue, is queued itself and reaches the kernel.
 -/
 import Compio.Lemmas.KeyLifeCancel
 
@@ -12,19 +14,22 @@ namespace Compio.Cex.C05
 
 open Compio Compio.KeyLife Compio.PollQueues
 
+/-- the configuration of the source before the repairs of F13 and F9 -/
+def pinned : Cfg := ⟨[.drainCq, .closeRing, .freeInFlight], false, false⟩
+
 /-- capacity 2: push, push, register a token for op 0, `cancel_token` -/
 def full : List Event :=
-  [.pushSq .single 0 .rd, .pushSq .single 1 .rd, .tokenRegister 0, .tokenCancel 0]
+  [.pushSq .single 0 .rd, .pushSq .single 1 .rd, .tokenRegister 0, .tokenCancel 0 []]
 
 /-- `cancel_token` reports that a cancellation was issued … -/
 theorem F9_cancel_token_says_true :
-    ((run Cfg.gen (init .iour 2) [.pushSq .single 0 .rd, .pushSq .single 1 .rd, .tokenRegister 0]).bind
+    ((run pinned (init .iour 2) [.pushSq .single 0 .rd, .pushSq .single 1 .rd, .tokenRegister 0]).bind
       fun s => (s.ops[0]?).map cancelTokRet) = some true := by rfl
 
 /-- **F9**: … but the SQE was dropped (`cancelDropped = 1`, nothing queued for the op), so after the submit the
 kernel knows of no cancel (`kcancel = false`) for the in-flight receive -/
 theorem F9_cancel_dropped_counterexample :
-    (run Cfg.gen (init .iour 2) (full ++ [.submit])).map
+    (run pinned (init .iour 2) (full ++ [.submit])).map
       (fun s => s.ops.map fun o => (o.cancelled, o.cancelSq, o.cancelDropped, o.kcancel, o.kstat, o.result))
     = some [(true, 0, 1, false, .inflight, none), (false, 0, 0, false, .inflight, none)] := by rfl
 
@@ -64,16 +69,26 @@ theorem F9_never_finishes (n : Nat) :
 /-- the state after the lost cancel and the first submit satisfies the hypothesis of `F9_never_finishes`, and
 op 0 has no result in it -/
 theorem F9_state_is_stuck :
-    (run Cfg.gen (init .iour 2) (full ++ [.submit])).map
+    (run pinned (init .iour 2) (full ++ [.submit])).map
       (fun s => (s.alive, decide (s.drv = .iour),
         s.ops.map fun o => (o.pendMore, o.pendFinal, o.cancelSq, decide (o.kstat ≠ .queued), o.result)))
     = some (true, true, [([], none, 0, true, none), ([], none, 0, true, none)]) := by rfl
 
-/-- with room in the queue (a poll happened before the cancel) the same cancel does reach the kernel -/
+/-- with room in the queue (a poll happened before the cancel) the same cancel did reach the kernel -/
 theorem F9_room_is_fine :
-    (run Cfg.gen (init .iour 2)
-        [.pushSq .single 0 .rd, .pushSq .single 1 .rd, .submit, .tokenRegister 0, .tokenCancel 0, .submit]).map
+    (run pinned (init .iour 2)
+        [.pushSq .single 0 .rd, .pushSq .single 1 .rd, .submit, .tokenRegister 0, .tokenCancel 0 [], .submit]).map
       (fun s => s.ops.map fun o => (o.cancelled, o.cancelDropped, o.kcancel))
     = some [(true, 0, true), (false, 0, false)] := by rfl
+
+/-- the repaired code on the very same events: the cancel finds the queue full, submits both receives (`push_raw`),
+queues its SQE (`cancelSq = 1`, nothing dropped), and the next submit hands it to the kernel -/
+theorem F9_repaired_ok :
+    (run Cfg.gen (init .iour 2) full).map
+        (fun s => (s.sqLen, s.ops.map fun o => (o.cancelled, o.cancelSq, o.cancelDropped, o.kstat)))
+      = some (1, [(true, 1, 0, .inflight), (false, 0, 0, .inflight)]) ∧
+    (run Cfg.gen (init .iour 2) (full ++ [.submit])).map
+        (fun s => s.ops.map fun o => (o.cancelDropped, o.kcancel, o.kstat))
+      = some [(0, true, .inflight), (0, false, .inflight)] := ⟨by rfl, by rfl⟩
 
 end Compio.Cex.C05
